@@ -153,6 +153,26 @@ class Interp(object):
             if isinstance(e, ast.Call):
                 e = e.func
             raise Raised(unparse(e) if e is not None else "<reraise>", st)
+        if isinstance(st, ast.Delete):
+            for t in st.targets:
+                if isinstance(t, ast.Subscript):
+                    base = self.expr(t.value, env)
+                    if isinstance(t.slice, ast.Slice):
+                        lo = self.expr(t.slice.lower, env) if t.slice.lower is not None else None
+                        hi = self.expr(t.slice.upper, env) if t.slice.upper is not None else None
+                        del base[lo:hi]
+                    else:
+                        try:
+                            del base[self.expr(t.slice, env)]
+                        except KeyError:
+                            raise Raised("KeyError", st)
+                        except IndexError:
+                            raise Raised("IndexError", st)
+                elif isinstance(t, ast.Name):
+                    env.pop(t.id, None)
+                else:
+                    raise Refuse(st, "del target")
+            return
         if isinstance(st, ast.Pass):
             return
         if isinstance(st, ast.Break):
@@ -360,6 +380,8 @@ class Interp(object):
                 raise Raised(type(x).__name__, e)
         if isinstance(e.func, ast.Attribute):
             base = self.expr(e.func.value, env)
+            if isinstance(base, Obj) and callable(getattr(base, e.func.attr, None)):
+                return getattr(base, e.func.attr)(*args, **kw)     # a callable the rule put on a supplied object
             for ty, ms in _METHODS.items():
                 if isinstance(base, ty) and e.func.attr in ms:
                     try:
